@@ -102,6 +102,8 @@ type State struct {
 	Pre *State
 	// goals already checked (hence usable) on this path
 	Known map[*smt.Term]bool
+	// terms whose axiom instances have been added on this path
+	Marked map[*smt.Term]bool
 	// pure-evaluation nesting depth (no obligations are emitted when > 0)
 	PureDepth int
 	// when set, modifies items are recorded instead of applied
@@ -109,7 +111,7 @@ type State struct {
 }
 
 func NewState() *State {
-	return &State{Heap: map[string]*smt.Term{}, Mem: map[string]*smt.Term{}, Cells: map[*Cell]Value{}, FD: map[int]*frameData{}, Known: map[*smt.Term]bool{}}
+	return &State{Heap: map[string]*smt.Term{}, Mem: map[string]*smt.Term{}, Cells: map[*Cell]Value{}, FD: map[int]*frameData{}, Known: map[*smt.Term]bool{}, Marked: map[*smt.Term]bool{}}
 }
 
 func (s *State) Clone() *State {
@@ -127,6 +129,10 @@ func (s *State) Clone() *State {
 	n.Known = make(map[*smt.Term]bool, len(s.Known))
 	for k := range s.Known {
 		n.Known[k] = true
+	}
+	n.Marked = make(map[*smt.Term]bool, len(s.Marked))
+	for k := range s.Marked {
+		n.Marked[k] = true
 	}
 	for k, v := range s.Heap {
 		n.Heap[k] = v
